@@ -297,13 +297,15 @@ class C14(Prop):
                 # directed stream: sheared prism grid (triangular AND quadrilateral faces),
                 # node set containing exactly 3 of the 4 nodes of some quadrilateral face
                 disc = rng.choice(["mpfa", "mpfa", "mpsa"])
-                nxy = [1, 1] if disc == "mpsa" else [rng.randint(1, 2), rng.randint(1, 2)]
+                # large enough that the stencil of a few nodes is a proper part of the grid
+                nxyz = [2, 2, 1] if disc == "mpsa" else [rng.randint(3, 4), rng.randint(2, 3),
+                                                          rng.randint(2, 3)]
                 yield {"kind": "partial" if kind == "dir_partial" else "book_active",
-                       "grid": {"type": "prism", "n": nxy + [rng.randint(1, 2)], "shear": 0.45,
+                       "grid": {"type": "prism", "n": nxyz, "shear": 0.45,
                                 "perturb": 0, "pseed": 0},
                        "dseed": rng.randrange(10**6), "disc": disc,
                        "spec": {"quad3": [rng.random(), rng.random(),
-                                          [rng.random() for _ in range(rng.randint(0, 6))]]}}
+                                          [rng.random() for _ in range(rng.randint(0, 3))]]}}
                 continue
             case = {"kind": kind, "grid": self._grid(rng, tier, small=kind in ("inverter",)),
                     "dseed": rng.randrange(10**6)}
